@@ -103,6 +103,15 @@ def patch_playback_tests(crate):
                         inside = False
                 out.append(line)
             s = '\n'.join(out)
+            # two failed checks with the same concrete values get the SAME generated test name: keep the first copy of each
+            seen = set()
+            def dedupe(m):
+                name = m.group(1)
+                if name in seen:
+                    return ''
+                seen.add(name)
+                return m.group(0)
+            s = re.sub(r'[ \t]*#\[test\]\s*fn (kani_concrete_playback_\w+)\(\) \{.*?concrete_playback_run[^\n]*\n\s*\}\n?', dedupe, s, flags=re.S)
             open(p, 'w').write(s)
 
 
